@@ -729,6 +729,18 @@ func (x *VC) evCall(e *SExpr, env *SEnv) *Val {
 			}
 			c := x.comp("G|spawned:"+args[0].Name, "", "Int")
 			return &Val{K: KScalar, T: x.get(env.cur, c), S: "Int", GT: types.Typ[types.UntypedInt]}
+		case "received":
+			// number of channel receives executed so far / lastReceived(): the last received reference
+			c := x.comp("G|chan.recvs", "", "Int")
+			return &Val{K: KScalar, T: x.get(env.cur, c), S: "Int", GT: types.Typ[types.UntypedInt]}
+		case "lastReceived":
+			c := x.comp("G|chan.lastRecv", "", "Int")
+			if len(args) != 1 {
+				x.specFail(e, "lastReceived(T): T is the struct type the received pointer points to")
+			}
+			tn := args[0].String()
+			t := types.NewPointer(x.resolveType(tn, env.pkg))
+			return &Val{K: KScalar, T: x.get(env.cur, c), S: "Int", GT: t}
 		case "sent":
 			// number of values sent on a channel
 			v := x.ev(args[0], env)
@@ -1679,6 +1691,16 @@ func (fr *Frame) backEdge(from, h *ssa.BasicBlock, st *State) {
 
 func (x *VC) topEnv(fr *Frame, res []*Val, st *State) *SEnv {
 	env := &SEnv{x: x, vars: map[string]*Val{}, cur: st, old: fr.entrySt, result: res, sig: fr.fn.Signature, fn: fr.fn, pkg: fr.pkgOf()}
+	// address-taken locals are visible to postconditions by their source name
+	for _, b := range fr.fn.Blocks {
+		for _, ins := range b.Instrs {
+			if a, ok := ins.(*ssa.Alloc); ok && a.Comment != "" {
+				if v, ok := st.C[a]; ok {
+					env.vars[a.Comment] = v
+				}
+			}
+		}
+	}
 	for i, p := range fr.fn.Params {
 		if i < len(fr.params) {
 			env.vars[p.Name()] = fr.params[i]
